@@ -309,6 +309,43 @@ def rule_rd_decode(cx, rep, port):
         covered = [t for t in tries if any(d in list(ast.walk(ast.Module(body=t.body, type_ignores=[]))) for d in chunk_decs)]
         maps = covered and any('RbqlIOHandlingError' in node_text(h, 2000) for t in covered for h in t.handlers)
         rep.decide(bool(maps), 'decode error mapping', covered[0] if covered else chunkfn, 'decode failures become RbqlIOHandlingError', 'a decode failure is not mapped to RbqlIOHandlingError')
+        # bulk mode: Buffer.toString never fails, so validity is decided by a separate test.  That test has to look at the raw bytes:
+        # the decoded text alone cannot tell a substituted U+FFFD from a genuine one (valid input containing EF BF BD)
+        bulk = p.func('rbql_csv', 'CSVRecordIterator.process_data_bulk')
+        raw = bulk.args.args[1].arg if len(bulk.args.args) > 1 else None
+        errs = [c for c in walk_no_nested(bulk) if isinstance(c, ast.Call) and 'utf_decoding_error' in node_text(c, 200) and (call_name(c) or '').endswith('store_or_propagate_exception')]
+        if raw is None or len(errs) != 1:
+            rep.undecided('bulk validity test', bulk, 'bulk decoding error site not recognised')
+        else:
+            guards = []
+            q = getattr(errs[0], 'parent', None)
+            while q is not None and q is not bulk:
+                if isinstance(q, ast.If):
+                    guards.append(q.test)
+                q = getattr(q, 'parent', None)
+            rawdep = {raw}
+            changed = True
+            while changed:
+                changed = False
+                for a in walk_no_nested(bulk):
+                    if isinstance(a, ast.Assign) and isinstance(a.targets[0], ast.Name) and a.targets[0].id not in rawdep:
+                        v = a.value
+                        # a value computed *only* through the lossy decoding of the raw bytes does not carry them
+                        lossy = isinstance(v, ast.Call) and isinstance(v.func, ast.Attribute) and v.func.attr in ('toString', 'decode')
+                        if not lossy and (names_in(v) & rawdep):
+                            rawdep.add(a.targets[0].id)
+                            changed = True
+            decoded = {a.targets[0].id for a in walk_no_nested(bulk) if isinstance(a, ast.Assign) and isinstance(a.targets[0], ast.Name) and isinstance(a.value, ast.Call) and isinstance(a.value.func, ast.Attribute) and a.value.func.attr in ('toString', 'decode')}
+            # derived-from-decoded names are not raw unless they also mention the raw bytes
+            for a in walk_no_nested(bulk):
+                if isinstance(a, ast.Assign) and isinstance(a.targets[0], ast.Name) and a.targets[0].id in rawdep and a.targets[0].id != raw and not (names_in(a.value) & ({raw} | (rawdep - decoded - {a.targets[0].id}))):
+                    rawdep.discard(a.targets[0].id)
+            content = [t_ for t_ in guards if names_in(t_) & (rawdep | decoded)]
+            ok = any(names_in(t_) & rawdep for t_ in content)
+            if not content:
+                rep.undecided('bulk validity test', errs[0], 'no guard over the data found for the bulk decoding error')
+            else:
+                rep.decide(ok, 'bulk validity test', content[0], 'the rejection test compares against the raw bytes', 'bulk input is rejected by a test on the decoded text only (`{}`): valid UTF-8 that contains the tested character (U+FFFD, bytes EF BF BD) is rejected, and the stream path accepts the same file'.format(node_text(content[0], 80)))
 
 
 def _stmt(n):
